@@ -92,7 +92,7 @@ from props_sun import SunProp  # noqa: E402
 
 _reg(SunProp(['Ea.C18.ceilSec_spec', 'Ea.C18.sunFind_spec', 'Ea.C18.sunNextRaw_spec', 'Ea.C18.sun_result_is_event',
               'Ea.C18.no_location', 'Ea.C18.sun_same_date', 'Ea.C18.sun_midnight_fires_twice', 'Ea.C18.sun_tries_matches']))
-_reg(SchedProp('C03', ['Ea.C03.reschedule_is_next_occurrence', 'Ea.C03.resume_keeps_announcement', 'Ea.C03.reschedule_is_next_occurrence_narrow', 'Ea.inv_reachable', 'Ea.C05.getNext_least', 'Ea.C04.getNext_gt', 'Ea.C01.never_early',
+_reg(SchedProp('C03', ['Ea.C03.reschedule_is_next_occurrence', 'Ea.C03.resume_keeps_announcement', 'Ea.C03.execution_records_last_run', 'Ea.C03.reschedule_is_next_occurrence_narrow', 'Ea.inv_reachable', 'Ea.C05.getNext_least', 'Ea.C04.getNext_gt', 'Ea.C01.never_early',
                        'Ea.rSpec', 'Ea.execute_recurring_ok', 'Ea.C03.recurring_round', 'Ea.C02.one_execution_per_announcement',
                        'Ea.sleepLate_ops']))
 
